@@ -210,10 +210,15 @@ class Run(object):
             if lname == "raise":
                 raise RuntimeError("listener raises")
             if lname == "self":
-                if cb in run.proto.events.get(evname, _NoCbs).callbacks:
-                    run.proto.remove_event_listener(evname, cb)
+                # a one-shot listener: unsubscribes itself whenever it is called, registered or not (if a peer
+                # has just unsubscribed it, the second removal is an error inside this listener)
+                run.proto.remove_event_listener(evname, cb)
             if lname == "other":
                 victim = run.listener("ok2", evname)
+                if victim in run.proto.events.get(evname, _NoCbs).callbacks:
+                    run.proto.remove_event_listener(evname, victim)
+            if lname == "killer":
+                victim = run.listener("self", evname)
                 if victim in run.proto.events.get(evname, _NoCbs).callbacks:
                     run.proto.remove_event_listener(evname, victim)
             if lname == "adder":
@@ -296,7 +301,9 @@ class Run(object):
                 self.pending = []
                 self.partial = b""
                 self.lost = True
-                self.tr.clear() if False else None
+                if e.get("local"):
+                    # we hung up ourselves (transport.loseConnection()): the transport says so from then on
+                    self.tr.disconnecting = True
                 p.connectionLost(reason)
             else:
                 raise ValueError(a)
@@ -404,7 +411,7 @@ REPLY_SHAPES = [("2", ["sOK"]), ("2", ["s"]), ("2", ["m", "s"]), ("2", ["m", "m"
 EVENT_SHAPES = [["s"], ["sB"], ["m", "sOK"], ["mB", "m", "sOK"], ["m", "m", "m", "sOK"],
                 ["p", "d", ".", "sOK"], ["pB", "dM", "d", ".", "sOK"], ["pB", "dS", "dE", "dK", ".", "sOK"],
                 ["m", "p", "d", ".", "sOK"]]
-LISTENERS = ["ok1", "ok2", "self", "other", "raise", "adder", "late"]
+LISTENERS = ["ok1", "ok2", "self", "other", "raise", "adder", "late", "killer"]
 
 
 def random_script(rng, length, lose=True, events=True):
@@ -452,6 +459,10 @@ def random_script(rng, length, lose=True, events=True):
                             kinds.append("se")
                     elif l == "adder" and "late" not in reg[curname]:
                         reg[curname].append("late")
+                    elif l == "killer" and "self" in reg[curname]:
+                        reg[curname].remove("self")
+                        if not reg[curname]:
+                            kinds.append("se")
             continue
         r = rng.random()
         if r < 0.30:
@@ -485,7 +496,7 @@ def random_script(rng, length, lose=True, events=True):
             pending = len(sh)
             cur = "event"
         elif lose and r >= 0.985:
-            e = dict(a="Lose", clean=rng.random() < 0.5)
+            e = dict(a="Lose", clean=rng.random() < 0.5, local=rng.random() < 0.4)
             if pending and rng.random() < 0.7:
                 e["cut"] = rng.randint(0, 30)
             script.append(e)
